@@ -33,6 +33,8 @@ from common import Ctx, Outcome
 
 import c11_barrier as barrier
 import c11_factories as factories
+import c11_layout as layout
+import c11_states as states
 
 DRIVERS = ["Reads", "Factories"]
 TABLES = True
@@ -47,7 +49,14 @@ RULE = ("operations are enumerated from the live model: (object, public attribut
         "references, requirement data made inconsistent-but-legal) followed by the read surface, every op under an lxml "
         "write barrier. parse: corpus diagrams (all in thorough) exported as node arenas; cache: seeded render/invalidate "
         "histories incl. failing parameter sets; effects: every distinct (function, receiver, operation, key) access the "
-        "parser performs while all diagrams are parsed and queried.")
+        "parser performs while all diagrams are parsed and queried. Unusual states (round 4): per model, every registered class "
+        "with instances x the states its live descriptors allow (optional attributes deleted / present but empty / all gone, "
+        "unknown enum literal, specification emptied through the API, without bodies, without languages, one language more "
+        "than bodies, empty texts, created empty, link lists cleared, objects created with no attributes in every containment "
+        "list), object per (class, state) by rng; distinct = (model, class, state, object). Layout variations: per diagram, "
+        "every GMF sentinel variant (size -1 / 0 / missing, position -1 / missing, no attributes) x node kind (box, port, "
+        "note, edge label) + invisible / hide-label / empty diagram-side name / collapsed compartment / empty semantic name, "
+        "nodes by rng, written to a scratch copy, saved and loaded again.")
 ASSUMPTIONS = [
     "etree.tostring equality of every fragment (fast screen used between check points) implies equality of "
     "ModelFile.write_xml output: write_xml is a function of the tree only; the real write_xml bytes are compared at "
@@ -61,13 +70,29 @@ ASSUMPTIONS = [
     "the barrier, not to the digests",
     "effect table: receiver kinds are inferred syntactically from annotations and obvious data flow; its soundness on executed "
     "paths is checked by the `effects` stream (every access the parser performs must be a row); unexecuted paths rest on the analyser",
+    "unusual states are produced by API edits and by lxml edits of the loaded tree that a schema-valid input file could contain "
+    "(EMF: every attribute optional, unknown enumeration literal tolerated by the reader); the layout variations are saved and "
+    "re-loaded, so there they ARE an input file",
+    "representation-loop table (gen_introspect.py): the sites are found syntactically in the five loops of _obj.py (a use of the "
+    "value the analyser does not know is `.other`, fails closed); `partialOn` of a value class is measured on ONE canonical state (an "
+    "instance over an empty element through the class' own (model, element) constructor) and only for classes that can be so "
+    "instantiated; that a value raises at most where the table says is the hypothesis of live_repr_loops_total, checked on the "
+    "observed values by the `intro.conforms` stream",
     "a mutator call during a read-only operation whose effect is undone within the same operation is reported "
     "(`writes-transient|...`) although save() would write the same bytes afterwards: between write and undo the model is changed, "
     "and an exception in between leaves it changed",
 ]
 TRUSTED = ["C11: lxml's etree.tostring is a faithful rendering of an element tree (used only as a screen)"]
 MANIFEST = dict(
-    text=("Effect model: every element factory / filter named by the live dispatch tables of the diagram parser (generated: "
+    text=("Representation loops (round 4): the five loops of the object layer that format attribute values (ModelElement.__repr__ / "
+          "__html__ / _short_html_, ElementList.__repr__ / __html__) as a total-or-raising fold over a table of getattr outcomes "
+          "{value, AttributeError, other error}; theorems: failed reads never matter, a loop completes on every table iff every "
+          "formatter it reaches completes on every value, the loops of the live code (generated sites: formatter + guarding tests + "
+          "try-guard; generated value classes: representation methods they define, which raise on an empty instance) complete "
+          "(kernel-checked obligation sites_total), and a loop that lets values render themselves through escape(value) is not total "
+          "(witness: a specification with no body). Monitor: introspection surface on objects of every class in unusual-but-legal "
+          "states; render purity on schema-legal layout variations of the .aird (GMF sentinels). "
+          "Effect model: every element factory / filter named by the live dispatch tables of the diagram parser (generated: "
           "STYLECLASS_LOOKUP + fallback, VISUAL_TYPES, COMPOSITE_FILTERS, GLOBAL_FILTERS) is a program over the model trees "
           "in which write requests exist; theorems: a program with no reachable write returns the tree unchanged (frame rule, "
           "also from the run's trace), every factory of the live tables does (factory_pure), the element loop of parse_diagram "
@@ -874,6 +899,8 @@ def barrier_loop(out: Outcome, label: str, m, ops: list[dict], edits: list | Non
                          f"[{label}] read-only operation {op} called a mutator on a model tree ({dsc}); the serialisation is "
                          f"unchanged afterwards (undone or idempotent), so only the barrier sees it",
                          {"kind": "transient", "model": label, "op": rop, "writes": writes[:5]})
+    for k, v in ex.errors.items():
+        out.hit(("barrier" if edits is None else "edited") + "-read-raised:" + k, v)
     for sig, op, what in ex.crashes:
         out.find("introspect|" + sig, f"[{label}] (edited state) {what}",
                  {"kind": "introspect", "model": label, "op": op if edits is None else dict(op, edits=edits), "sig": sig})
@@ -976,6 +1003,12 @@ def gen_edits(ctx: Ctx, model) -> list[dict]:
 def apply_edits(model, edits: list[dict]) -> collections.Counter:
     done: collections.Counter = collections.Counter()
     for ed in edits:
+        if ed["e"] == "layout":   # a schema-legal .aird variation (c11_layout), not an API edit
+            try:
+                done[f"layout:{ed['v']}:" + layout.apply_variation(model, ed)] += 1
+            except Exception as e:  # noqa: BLE001
+                done[f"layout:{ed['v']}:raised:{type(e).__name__}"] += 1
+            continue
         try:
             o = model.by_uuid(ed["u"])
         except Exception:  # noqa: BLE001
@@ -1134,6 +1167,101 @@ def run_barrier(ctx: Ctx, out: Outcome, label: str, size: str) -> None:
     out.hit("barrier:ops-with-mutator-calls", stats["ops_with_writes"])
     out.extra.setdefault("barrier", {})[label] = stats
     out.traces_validated += 1
+
+
+# ------------------------------------------------------------------ .aird layout variations (round 4)
+
+
+def copy_model_dir(ctx: Ctx, label: str, tag: str) -> tuple[pathlib.Path, pathlib.Path, dict]:
+    """A scratch copy of one corpus model (its directory + its resource directories). Returns (base, entry, kwargs)."""
+    env = setup(ctx)
+    _, entry, res, _ = next(m for m in MODELS if m[0] == label)
+    base = ctx.scratch / f"copy-{tag}"
+    if base.exists():
+        shutil.rmtree(base)
+    rel = pathlib.PurePosixPath(entry)
+    shutil.copytree(env["data"] / rel.parent, base / rel.parent)
+    kw = {}
+    if res:
+        for v in res.values():
+            if not (base / v).exists():
+                shutil.copytree(env["data"] / v, base / v)
+        kw["resources"] = {k: str(base / v) for k, v in res.items()}
+    return base, base / rel, kw
+
+
+def dir_bytes(base: pathlib.Path) -> dict[str, str]:
+    return {str(p.relative_to(base)): hashlib.sha256(p.read_bytes()).hexdigest() for p in sorted(base.rglob("*")) if p.is_file()}
+
+
+def layout_ops(ctx: Ctx, dgs: list[str]) -> list[dict]:
+    rng = ctx.rng
+    ops: list[dict] = []
+    for d in dgs:
+        ops.append({"k": "dg.render", "d": d, "fmt": None})
+        ops.append({"k": "dg.render", "d": d, "fmt": "svg", "pretty": rng.random() < 0.5})
+        for k in ("dg.html", "dg.mime", "dg.repr", "dg.dir", "dg.short"):
+            ops.append({"k": k, "d": d})
+        for a in ("nodes", "semantic_nodes", "as_svg", "filters"):
+            ops.append({"k": "dg.attr", "d": d, "a": a, "deep": a == "nodes" and rng.random() < 0.3})
+        ops.append({"k": "dg.save", "d": d, "fmt": "svg"})
+        ops.append({"k": "dg.invalidate", "d": d})
+        ops.append({"k": "dg.render", "d": d, "fmt": None})
+    rng.shuffle(ops)
+    return ops
+
+
+def run_layout(ctx: Ctx, out: Outcome, label: str, size: str) -> None:
+    """Schema-legal layout variations are written into a few nodes of a scratch copy of the model and saved; the copy is
+    loaded again (so the variation is an input FILE), the varied diagrams are rendered / displayed / queried under the
+    write barrier with a digest after every op, then save() must write what was loaded, byte for byte."""
+    env = setup(ctx)
+    rng = ctx.rng
+    base, entry, kw = copy_model_dir(ctx, label, "L")
+    a = env["capellambse"].MelodyModel(str(entry), **kw)
+    dgs = list(a.diagrams)
+    if not dgs:
+        shutil.rmtree(base, ignore_errors=True)
+        return
+    nd = len(dgs) if ctx.thorough else (min(len(dgs), 2) if size == "small" else 4)
+    sel = rng.sample(dgs, nd)
+    edits: list[dict] = []
+    for d in sel:
+        edits += layout.plan(ctx, a, d, ctx.pick(1, 2))
+    done = apply_edits(a, edits)
+    for k, v in done.items():
+        out.hit("vary:" + k, v)
+    a.save()
+    del a
+    before = dir_bytes(base)
+    barrier.install()
+    try:
+        m = env["capellambse"].MelodyModel(str(entry), **kw)
+    finally:
+        barrier.uninstall()
+    by_dg: dict = collections.defaultdict(list)
+    for ed in edits:
+        by_dg[ed["diagram"]].append(ed)
+    stats = {"ops": 0, "ops_with_writes": 0, "mutator_calls": 0}
+    for d in sel:
+        # one loop per diagram so that a replay needs only that diagram's variations
+        st = barrier_loop(out, label, m, layout_ops(ctx, [d.uuid]), by_dg[d.uuid])
+        for k in stats:
+            stats[k] += st[k]
+    m.save()
+    after = dir_bytes(base)
+    bad = sorted(k for k in set(before) | set(after) if before.get(k) != after.get(k))
+    out.case((label, "layout-save-level"), None, True)
+    out.traces_validated += 1
+    if bad:
+        out.find("mutates|save-level|files-differ|layout-variations",
+                 f"[{label}] with layout variations {sorted({e['v'] for e in edits})} in {len(sel)} diagrams: save() after "
+                 f"rendering wrote different bytes than the files that were loaded: {bad}",
+                 {"kind": "layout-save-level", "model": label, "edits": edits, "files": bad})
+    out.hit("layout:variations", len(edits))
+    out.hit("layout:ops", stats["ops"])
+    out.extra.setdefault("layout", {})[label] = dict(stats, diagrams=len(sel), variations=len(edits), done=dict(done))
+    shutil.rmtree(base, ignore_errors=True)
 
 
 # ------------------------------------------------------------------ PVMT (documented exception)
@@ -1488,6 +1616,7 @@ def run(ctx: Ctx) -> Outcome:
     fcases: list[dict] = []
     store_cases: list = []
     parse_cases: list = []
+    intro_cases: list = []
     sel = MODELS
     only = os.environ.get("C11_MODELS")
     if only:
@@ -1502,6 +1631,8 @@ def run(ctx: Ctx) -> Outcome:
 
     barrier_big = ctx.rng.choice([m[0] for m in MODELS if m[3] == "big"])
     edited_big = "mm52" if barrier_big != "mm52" else "mm60"
+    states_big = ctx.rng.choice([m[0] for m in MODELS if m[3] == "big"])
+    layout_big = ctx.rng.choice([m[0] for m in MODELS if m[3] == "big"])
     for label, _entry, _res, size in sel:
         st = timed("reads", run_reads, ctx, out, label, size)
         model = st.pop("model")
@@ -1524,6 +1655,10 @@ def run(ctx: Ctx) -> Outcome:
             timed("barrier", run_barrier, ctx, out, label, size)
         if label in ("parser", "pvmt", "libproj") or ctx.thorough or label == edited_big:
             timed("edited", run_edited, ctx, out, label, size)
+        if size == "small" or ctx.thorough or label == states_big:
+            timed("states", states.run_states, ctx, out, label, size, sys.modules[__name__], intro_cases)
+        if size == "small" or ctx.thorough or label == layout_big:
+            timed("layout", run_layout, ctx, out, label, size)
     timed("cache", run_cache, ctx, out)
     out.extra["seconds_by_phase"] = phase
     # synthetic-free correspondence: factories
@@ -1581,6 +1716,8 @@ def run(ctx: Ctx) -> Outcome:
             out.disagree("table.dump", {"what": "dispatch rows re-read from the generated Lean table"}, want[:5], got[:5])
         out.extra["parse"] = {"diagrams": len(parse_cases), "seconds_model": round(time.time() - t0, 2),
                               "nodes": sum(len(rq["nodes"]) for _l, _d, rq, _o in parse_cases)}
+    if os.environ.get("VERIF_NO_MODEL") != "1" and intro_cases:
+        compare_intro(out, intro_cases)
     out.extra["per_model"] = per_model
     if "effects_functions_exercised" in out.extra:
         ex_f = sorted(out.extra["effects_functions_exercised"])
@@ -1592,6 +1729,52 @@ def run(ctx: Ctx) -> Outcome:
     out.extra["factory_cases"] = len(fcases)
     out.extra["input_distribution"] = {k: v for k, v in sorted(out.branches.items()) if k.startswith("op:")}
     return out
+
+
+# ------------------------------------------------------------------ representation loops (round 4) correspondence
+
+
+def compare_intro(out: Outcome, cases: list[dict]) -> None:
+    """`ModelElement.__html__` / `__repr__` on objects in unusual states vs. the Lean loop over the generated sites: the
+    model is given the outcome of every attribute read (class row of the value + which of its representation methods raise
+    when called on their own) and predicts whether the loop completes.  Also: the hypothesis of `live_repr_loops_total`
+    (a value raises at most where the table says its class is partial), and the table re-read from the generated file."""
+    rows = states.table_rows()
+    reqs = [{"op": "intro.loop", "fn": c["fn"], "oracle": False, "vals": c["vals"]} for c in cases]
+    answers = common.model(reqs + [{"op": "intro.table"}], driver="Factories")
+    for c, a in zip(cases, answers):
+        out.case(("intro.loop", c["model"], c["fn"], c["state"]["u"], c["state"]["s"]), None, True)
+        if "ok" not in a:
+            out.disagree("intro.loop", {"model": c["model"], "state": c["state"], "fn": c["fn"]}, "n/a", a)
+            continue
+        r = a["ok"]
+        out.hit("intro.loop:" + c["fn"] + (":completes" if c["impl_completes"] else ":raises"))
+        if r["unknown_classes"]:
+            out.disagree("intro.loop", {"model": c["model"], "state": c["state"]}, "value classes", {"not in the table": r["unknown_classes"]})
+        if r["completes"] != c["impl_completes"]:
+            out.disagree("intro.loop", {"model": c["model"], "state": c["state"], "fn": c["fn"],
+                                        "raising": [v for v in c["vals"] if isinstance(v, dict) and v["raises"]]},
+                         {"completes": c["impl_completes"]}, {"completes": r["completes"]})
+        for v in c["vals"]:
+            if isinstance(v, dict):
+                out.hit("intro.value:" + v["cls"])
+                extra = [m for m in v["raises"] if m not in rows[v["cls"]]["partial"]]
+                if extra and rows[v["cls"]]["generic"] is False:
+                    out.disagree("intro.conforms", {"model": c["model"], "state": c["state"], "class": v["cls"]},
+                                 {"raises": v["raises"]}, {"partialOn": rows[v["cls"]]["partial"]})
+            else:
+                out.hit("intro.value:" + v)
+        out.traces_validated += 1
+    info = answers[-1].get("ok", {})
+    want_c = sorted((n, r["attrs"], r["defines"], r["partial"]) for n, r in rows.items() if not n.startswith("\0"))
+    got_c = sorted((n, a_, d_, p_) for n, a_, d_, p_ in info.get("classes", []))
+    want_s = [(s_["fn"], s_["attr"], s_["guarded"], len(s_["conds"])) for s_ in rows["\0sites"]]
+    got_s = [tuple(x) for x in info.get("sites", [])]
+    if [list(x) for x in want_c] != [list(x) for x in got_c] or want_s != got_s:
+        out.disagree("intro.table", {"what": "sites / value classes re-read from the generated Lean table"},
+                     {"classes": len(want_c), "sites": want_s[:3]}, {"classes": len(got_c), "sites": got_s[:3]})
+    out.extra["intro"] = {"loop_cases": len(cases), "sites": len(want_s), "value_classes": len(want_c),
+                          "partial_classes": [n for n, r in rows.items() if not n.startswith("\0") and r["partial"]]}
 
 
 # ------------------------------------------------------------------ render cache (state machine) correspondence
@@ -1757,6 +1940,26 @@ def replay(ctx: Ctx, case: dict):
     setup(ctx)
     kind = case.get("kind")
     label = case.get("model")
+    if kind == "introspect-state" or (kind == "mutation" and case["op"].get("k") == "introspect-state"):
+        c = case if kind == "introspect-state" else {"model": label, "state": case["op"]["state"], "history": case["op"].get("history")}
+        return states.replay_state(ctx, c, sys.modules[__name__])
+    if kind == "layout-save-level":
+        m = open_model(ctx, label)
+        apply_edits(m, case["edits"])
+        before = full_snap(m)
+        roots = copy_roots(m)
+        ex = Exec(m, label, None)
+        for d in sorted({e["diagram"] for e in case["edits"]}):
+            for op in ({"k": "dg.render", "d": d, "fmt": None}, {"k": "dg.render", "d": d, "fmt": "svg"}, {"k": "dg.mime", "d": d}):
+                try:
+                    ex.run(op)
+                except Exception:  # noqa: BLE001
+                    pass
+        after = full_snap(m)
+        if before != after:
+            return (f"rendering the varied diagrams changed write_xml output of {[k for k in before if before[k] != after[k]]}: "
+                    f"{sorted({diff_class(x) for x in model_diff(roots, m)})}")
+        return None
     if kind == "mutation":
         m = open_model(ctx, label)
         ex = Exec(m, label, None)
